@@ -90,7 +90,7 @@ def _worker_run(task):
                     error='internal error: ' + traceback.format_exc()[-1500:])
 
 
-def explore_jobs(mk_mod, mk_name, docs, jobs, cfg, workers, wall_budget_s, chunk_paths=400):
+def explore_jobs(mk_mod, mk_name, docs, jobs, cfg, workers, wall_budget_s, chunk_paths=24):
     """Explore every job (skeleton) completely or until the wall budget ends.
     A job is split over workers by handing out unexplored prefixes."""
     t0 = time.time()
